@@ -300,7 +300,13 @@ def gen_multi(rng, with_cancel):
     immediate = with_cancel and not children and rng.random() < 0.5
     if immediate:
         env.append([["cancel", rng.randrange(ntop)], True])
-        if rng.random() < 0.3:
+        # A cancel() issued before the continuation Task's first step takes effect at that step
+        # (notes/C03.md).  With two such cancels and one coroutine awaiting the other, the awaited one
+        # can finish *during* that first iteration, so the second cancel finds it done where the plain
+        # Task's cancel() found it pending: the single-coroutine oracle accepts both orders, this one
+        # cannot express the second, so the combination is not generated.
+        has_w = any(s[0] == "W" for p in progs for s in _flat(p))
+        if rng.random() < 0.3 and not has_w:
             env.append([["cancel", rng.randrange(ntop)], True])
     order = list(range(nfut))
     rng.shuffle(order)
